@@ -37,7 +37,7 @@ MOVE_CODES = ('E0382',)
 
 TRUSTED_BASE = [
     'Coq 8.16.1 kernel (coqc); vm_compute over the finite generated tables; no native_compute; no axioms (Print Assumptions: Closed under the global context)',
-    '/verif/sigdump (syn 2.0 translator): syntactic; sound only for the idioms it recognises - what it does not recognise is recorded as a write primitive / an irregular row and listed in translator_warnings; method calls are resolved by name and arity; a method name defined in the scanned files is assumed to dispatch there; implicit drops are not modelled',
+    '/verif/sigdump (syn 2.0 translator): syntactic; sound only for the idioms it recognises - what it does not recognise is recorded as a write primitive / an irregular row and listed in translator_warnings; method calls are resolved by name and arity; a method name defined in the scanned files is assumed to dispatch there; implicit drops are edges to drop_glue(T) for every scanned type T a value of which may exist in a body (struct literals, declared return types of the scanned callees, by-value parameters, typed bindings, fields), not tracked: drops performed inside foreign containers of scanned types whose type is written nowhere in the function, values hidden behind a foreign trait object',
     'rustc 1.95.0 is the oracle for C18: what the trait solver and the borrow checker accept is observed on probe programs, not modelled',
     'the probe generator and comparison in tools/sig_check.py (witness types: Cell<u8> is Send+!Sync, MutexGuard<\'static,u8> is !Send+Sync, Rc<u8> is neither, u64/RandomState are both)',
     'thread scheduling is not modelled (C19 static: a syntactic over-approximation of writes, for all inputs)',
@@ -143,7 +143,7 @@ def predict_v(tables):
          'Definition cube (tr : string) : list bool :=',
          '  flat_map (fun k => flat_map (fun v => map (fun s => marker_holds marker_impls structs tr "LruCache" [k; v; s]) vals4) vals4) vals4.',
          'Definition all_good (s : struct_info) : list (bool * bool) := map (fun _ => (true, true)) (st_tparams s).',
-         'Definition c19_graph : list fn_node := redirect "LruCache::clone" "LruCache::clone@source" fns.',
+         'Definition c19_graph : list fn_node := c19_graph_of "LruCache::clone" "LruCache::clone@source" fns.',
          'Eval vm_compute in "TAG:send_cube".', 'Eval vm_compute in (cube "Send").',
          'Eval vm_compute in "TAG:sync_cube".', 'Eval vm_compute in (cube "Sync").',
          'Eval vm_compute in "TAG:tied".', 'Eval vm_compute in (map tied_to_self sigs).',
@@ -152,7 +152,7 @@ def predict_v(tables):
          'Eval vm_compute in "TAG:blocked".', 'Eval vm_compute in (map (fun s => auto_blocked structs (st_name s)) structs).',
          'Eval vm_compute in "TAG:struct_send".', 'Eval vm_compute in (map (fun s => marker_holds marker_impls structs "Send" (st_name s) (all_good s)) structs).',
          'Eval vm_compute in "TAG:struct_sync".', 'Eval vm_compute in (map (fun s => marker_holds marker_impls structs "Sync" (st_name s) (all_good s)) structs).',
-         'Eval vm_compute in "TAG:nowrite".', 'Eval vm_compute in (map (no_write_reachable c19_graph) (map fn_name c19_graph)).',
+         'Eval vm_compute in "TAG:nowrite".', 'Eval vm_compute in (map (no_write_reachable c19_graph) (map fn_name fns)).',
          'Eval vm_compute in "TAG:end".']
     return '\n'.join(L) + '\n'
 
@@ -595,7 +595,14 @@ def write_paths(tables, roots):
     """for diagnostics: shortest call path from each root to a function with a write primitive (python mirror of the Coq check)"""
     G = dict((f['qname'], dict(callees=f['callees'], writes=f['writes'])) for f in tables['fns'])
     cl = tables['clone']
+    # implicit drops: the glue nodes, and the drops-only twin "<f>@drops" of every function (GenDefs.v: with_drops_view)
+    for g in tables.get('glue', []):
+        G[g['node']] = dict(callees=g['callees'], writes=[])
     G[cl['node']] = dict(callees=cl['src_callees'], writes=cl['src_writes'])
+    suf = tables.get('drops_suffix', '@drops')
+    def dname(c): return c if c.startswith('drop_glue(') or c.endswith(suf) else c + suf
+    for n in [n for n in G if not n.startswith('drop_glue(') and not n.endswith(suf)]:
+        G[n + suf] = dict(callees=[dname(c) for c in G[n]['callees']], writes=[])
     def red(c): return cl['node'] if c == 'LruCache::clone' else c
     out = {}
     for r in roots:
@@ -609,7 +616,18 @@ def write_paths(tables, roots):
         if hit:
             path = []; n = hit
             while n is not None: path.append(n); n = prev[n]
-            out[r] = dict(path=list(reversed(path)), writes=G[hit]['writes'][:4])
+            path = list(reversed(path))
+            out[r] = dict(path=path, writes=G[hit]['writes'][:4])
+            # where the path goes through an implicit drop: the sites that put the edge to the glue node there
+            sites = {}
+            fn = dict((f['qname'], f) for f in tables['fns'])
+            for a, b in zip(path, path[1:]):
+                if b.startswith('drop_glue(') and not a.startswith('drop_glue('):
+                    base = a[:-len(suf)] if a.endswith(suf) else a
+                    ty = b[len('drop_glue('):-1]
+                    src = fn[base]['drop_sites'] if base in fn else (cl.get('src_drop_sites', []) if base == cl['node'] else [])
+                    sites['%s -> %s' % (a, b)] = [d for d in src if (' %s - ' % ty) in d or d.startswith(b)][:4]
+            if sites: out[r]['implicit_drop_sites'] = sites
     return out
 
 
@@ -633,7 +651,7 @@ def c19_static():
     roots = named + [r for r in T['shared_fns'] if r not in named]
     witness = write_paths(T, roots)
     nowrite = coq['predictions'].get('nowrite')
-    names_c19 = [f['qname'] for f in T['fns']] + [T['clone']['node']]
+    names_c19 = [f['qname'] for f in T['fns']] + [g['node'] for g in T.get('glue', [])] + [T['clone']['node']]
     coq_says = dict(zip(names_c19, nowrite)) if nowrite and len(nowrite) == len(names_c19) else {}
     details = dict(
         ok=ok, problems=problems, broken=names, theorem='C19_static',
@@ -642,12 +660,17 @@ def c19_static():
         roots=roots, failing_roots=sorted(r for r in roots if r in witness),
         witness=witness, coq_no_write_reachable=dict((r, coq_says.get(r)) for r in roots),
         clone=dict(fresh_locals=T['clone']['fresh_locals'], fresh_sites=T['clone']['fresh_sites'], residual_not_covered=T['clone']['residual'],
-                   source_writes=T['clone']['src_writes']),
+                   source_writes=T['clone']['src_writes'], residual_callees_drops_covered=T['clone'].get('residual_callees', []),
+                   source_drop_sites=T['clone'].get('src_drop_sites', []), returns_fresh=T['clone'].get('returns_fresh'), return_sites=T['clone'].get('return_sites', [])),
         functions=len(T['fns']), functions_with_write_primitive=sum(1 for f in T['fns'] if f['writes']),
+        call_edges=sum(1 for f in T['fns'] for c in f['callees'] if not c.startswith('drop_glue(')),
+        implicit_drop_edges=sum(1 for f in T['fns'] for c in f['callees'] if c.startswith('drop_glue(')),
+        drop_glue=dict((g['node'], g['callees']) for g in T.get('glue', [])),
+        fresh_drops=dict((f['qname'], f['fresh_drops']) for f in T['fns'] if f.get('fresh_drops')),
         translator_warnings=T['warnings'], obligations=dict((f, coq['obligations'].get(f)) for f in C19_CONE),
         checker_cmd='sigdump (regenerate Gen/Sigs.v from %s/src) ; coqc -Q . LruV Gen/GenDefs.v Gen/Sigs.v Gen/C19Static.v' % repo,
-        covered='for every &self operation of LruCache (named in C19 and every other one found in the source), the Iterator/DoubleEndedIterator methods and constructors of Iter/Keys/Values, Debug::fmt, and the source half of Clone::clone: no function reachable in the generated call graph contains a write primitive',
-        not_covered='clone: sites of the fresh cache that receive source-derived values (clone.residual_not_covered); implicit drops; writes hidden behind a method name that is defined in the scanned files but dispatches elsewhere; interior mutability inside user types K, V, S',
+        covered='for every &self operation of LruCache (named in C19 and every other one found in the source), the Iterator/DoubleEndedIterator methods and constructors of Iter/Keys/Values, Debug::fmt, and the source half of Clone::clone: no function reachable in the generated call graph contains a write primitive; the graph has an edge to drop_glue(T) wherever a value of a scanned type T with drop code may be dropped implicitly (scope end, overwriting, early return, unwinding), and the source half of clone has the implicit drops of the callees of its residual sites',
+        not_covered='clone: the explicit code of sites of the fresh cache that receive source-derived values (clone.residual_not_covered; their implicit drops are covered); the drop of the half-built / nested clone is taken as a write into fresh memory (clone.fresh_sites); drops inside foreign containers of scanned types whose type is written nowhere in the function; writes hidden behind a method name that is defined in the scanned files but dispatches elsewhere; interior mutability inside user types K, V, S',
         build_dir=coq['dir'], cached=coq.get('cached', False), wall_s=round(time.time() - t0, 2))
     return ok, details
 
